@@ -203,6 +203,7 @@ def embeddings(draw, meta):
         "inner_after": draw(st.integers(0, 1)) if scope else 0,
         "inner": draw(st.sampled_from([None, None] + meta["inner"])) if meta["inner"] else None,
         "guard": draw(st.sampled_from([None, "after"] if meta["no_before"] else [None, "before", "after"])),
+        "rename": draw(st.sampled_from([None, "defs-only"])) if k > 1 else None,
     }
 
 
@@ -327,7 +328,7 @@ EMBED_FEATURE = {
 def emb_class(emb):
     if is_identity(emb):
         return "identity"
-    return [emb["scope"], emb.get("inner"), emb["k"], bool(emb["before"]), bool(emb["after"]), bool(emb["inner_before"] or emb["inner_after"]), [bool(t) for t in emb["tags"]], emb.get("guard")]
+    return [emb["scope"], emb.get("inner"), emb["k"], bool(emb["before"]), bool(emb["after"]), bool(emb["inner_before"] or emb["inner_after"]), [bool(t) for t in emb["tags"]], emb.get("guard"), emb.get("rename")]
 
 
 def check(case) -> Case:
